@@ -10,7 +10,7 @@ digit alphabet, radixes, prefixes and default precisions from format.rs (Gen/Gen
 the correspondence runs the impl-model AND the spec (Eval vm_compute) and the real code
 (`fmt % vals`, std.format, std.mod through jrharness eval) on the same cases:
   full product flag subsets (32) x width {none,0,1,5,*} x precision {none,.0,.1,.3,.*} x 15
-  conversion letters (quick: a seeded quarter) x 22 arguments; malformed / truncated strings
+  conversion letters (quick: a seeded twelfth plus a fixed 525-code grid) x 22 arguments; malformed / truncated strings
   (every prefix of valid codes, unknown letters, `%(`, `%(k`, u16-overflowing widths, repeated
   length modifiers); object mode with nested / dotted / missing keys; multi-code strings with
   too few / too many values.
@@ -32,19 +32,10 @@ IMPORTS = ("From Coq Require Import List ZArith NArith.\nFrom JrV Require Import
 CONVS = "diuoxXeEfFgGcs%"
 FLAGS = "#0- +"
 ERR_NAMES = {1: "truncated", 2: "unrecognized", 3: "not-enough", 4: "too-many", 5: "star-with-object",
-             6: "keys-required", 7: "no-field", 8: "type", 9: "char", 10: "PANIC", 11: "FUEL"}
+             6: "keys-required", 7: "no-field", 8: "type", 9: "char", 10: "PANIC", 11: "FUEL", 12: "too-large"}
 
 # known-finding ids (props/c12.meta.json)
-K_WIDTH = "C12-width-u16-overflow"
-K_G0 = "C12-g-precision-zero-underflow"
-K_BYTES = "C12-width-counts-bytes"
 K_SAT = "C12-int-i64-saturation"
-K_HEX0 = "C12-hex-alt-zero-prefix"
-K_HEXNEG = "C12-hex-negative-fraction"
-K_OCTFRAC = "C12-octal-alt-fraction"
-K_LENMOD = "C12-length-modifier-repeat"
-K_CHARNEG = "C12-char-negative"
-K_PREC16 = "C12-precision-u16-add-overflow"
 K_FPREC = "C12-float-precision-pow-overflow"
 
 
@@ -335,22 +326,19 @@ def multi_cases(rng, n):
 
 
 WITNESS = {  # one reproducing input per known finding: must keep failing, else the finding is stale
-    K_WIDTH: Case("%99999d", V(1), "witness"),
-    K_G0: Case("%.0g", V(0.5), "witness"),
-    K_BYTES: Case("%5s", V("é"), "witness", code=("", 5, None, "s", V("é"))),
     K_SAT: Case("%d", V(1e30), "witness", code=("", None, None, "d", V(1e30))),
-    K_HEX0: Case("%#x", V(0), "witness", code=("#", None, None, "x", V(0))),
-    K_HEXNEG: Case("%x", V(-1.5), "witness", code=("", None, None, "x", V(-1.5))),
-    K_OCTFRAC: Case("%#05o", V(0.5), "witness", code=("#0", 5, None, "o", V(0.5))),
-    K_LENMOD: Case("%lld", V(5), "witness"),
-    K_CHARNEG: Case("%c", V(-1), "witness", code=("", None, None, "c", V(-1))),
-    K_PREC16: Case("%.65535f", V(1), "witness"),
     K_FPREC: Case("%.400f", V(1), "witness"),
 }
+
+# the witnesses of the findings fixed in /repo (see props/c12.meta.json "fixed"): now ordinary regression cases
+FIXED_WITNESSES = [("%99999d", 1), ("%.0g", 0.5), ("%5s", "é"), ("%#x", 0), ("%x", -1.5), ("%#05o", 0.5),
+                   ("%lld", 5), ("%c", -1), ("%.65535f", 1), ("%*d", [70000, 3]), ("%5c", "\U0001F600"),
+                   ("%#5.3o", 0.5), ("%#X", 0.25), ("%x", -0.5), ("%.0G", 123456789), ("%#.0g", 0)]
 
 
 def corpus_cases():
     cs = list(WITNESS.values())
+    cs += [Case(f, V(a), "corpus") for f, a in FIXED_WITNESSES]
     cs += [Case("%5.1s", V("abc"), "corpus"), Case("%+010.3g|", V(1.5), "corpus"), Case("%.0e", V(9.5), "corpus"),
            Case("%.0f", V(0.5), "corpus"), Case("%.0f", V(2.5), "corpus"), Case("%#.3o", V(8), "corpus"),
            Case("%c", V(65.7), "corpus"), Case("%c", V(1114112), "corpus"), Case("%c", V(55296), "corpus"),
@@ -477,21 +465,16 @@ def python_float(code):
         return None
 
 
-def classify_known(case, code_out, spec_out, impl_out, lenmod):
+def classify_known(case, code_out, spec_out, impl_out):
     """narrow classifiers of the known findings; returns an id or None"""
     cls_code, txt_code = code_out
     cls_spec, txt_spec = spec_out
-    if lenmod:
-        return K_LENMOD
     if cls_code == "panic":
-        if max_digit_run(case.fmt) >= 65536:
-            return K_WIDTH
         ps = parse_simple(case.fmt)
-        if ps and ps[3] in "eEfFgG" and ps[2] == 65535 and "format.rs" in txt_code and "add with overflow" in txt_code:
-            return K_PREC16
         if (ps and ps[3] in "eEfFgG" and isinstance(ps[2], int) and ps[2] >= 309
                 and "render_integer receives sign using arg" in txt_code):
             return K_FPREC
+        return None
     c = case.code
     if c is None:
         ps = parse_simple(case.fmt)
@@ -500,26 +483,8 @@ def classify_known(case, code_out, spec_out, impl_out, lenmod):
     if c is None or case.kind == "multi":
         return classify_composite(case, code_out, spec_out, impl_out)
     flags, w, p, cv, a = c
-    isnum = a[0] == "num"
-    if cls_code == "panic" and cv in "gG" and p == 0 and isnum and "subtract with overflow" in txt_code:
-        return K_G0
-    if cls_code == "ok" and cls_spec == "ok":
-        if cv in "sc" and any(ord(ch) > 127 for ch in txt_spec):
-            # same text, fewer pad spaces: one per extra UTF-8 byte
-            core_txt = txt_spec.strip(" ")
-            extra = len(core_txt.encode()) - len(core_txt)
-            if (extra > 0 and txt_code.strip(" ") == core_txt and len(txt_code) == max(len(core_txt), len(txt_spec) - extra)):
-                return K_BYTES
-        if isnum and cv in "diuoxXfF" and abs(a[1]) >= 2.0 ** 63:
-            return K_SAT
-        if isnum and cv in "xX" and "#" in flags and abs(a[1]) < 1:
-            return K_HEX0
-        if isnum and cv in "xX" and a[1] < 0 and a[1] != int(a[1]):
-            return K_HEXNEG
-        if isnum and cv == "o" and "#" in flags and 0 < abs(a[1]) < 1:
-            return K_OCTFRAC
-    if cls_code == "ok" and cls_spec == "err" and cv == "c" and isnum and a[1] <= -1 and txt_code.strip(" ") == "\x00":
-        return K_CHARNEG
+    if cls_code == "ok" and cls_spec == "ok" and a[0] == "num" and cv in "diuoxXfF" and abs(a[1]) >= 2.0 ** 63:
+        return K_SAT
     return None
 
 
@@ -546,26 +511,9 @@ def classify_composite(case, code_out, spec_out, impl_out):
     nums = flat_numbers(case.arg, [])
     cls_code, txt_code = code_out
     cls_spec, txt_spec = spec_out
-    if cls_code == "panic":
-        if "subtract with overflow" in txt_code and any(cv in "gG" and p in ("0", "*", "") and p is not None
-                                                        for _f, _w, p, cv in codes):
-            return K_G0
-        return None
-    if cls_code == "ok" and cls_spec == "err" and spec_out[1] == "char" and "\x00" in txt_code \
-            and any(cv == "c" for *_x, cv in codes) and any(x <= -1 for x in nums):
-        return K_CHARNEG
     if cls_code == "ok" and cls_spec == "ok":
-        if any(cv in "sc" and w not in ("", "0") for _f, w, _p, cv in codes) and any(ord(ch) > 127 for ch in txt_spec) \
-                and txt_code.replace(" ", "") == txt_spec.replace(" ", "") and len(txt_code) < len(txt_spec):
-            return K_BYTES
         if any(abs(x) >= 2.0 ** 63 for x in nums) and any(cv in "diuoxXfF" for *_x, cv in codes):
             return K_SAT
-        if any(cv in "xX" and "#" in f for f, _w, _p, cv in codes) and any(abs(x) < 1 for x in nums):
-            return K_HEX0
-        if any(cv in "xX" for *_x, cv in codes) and any(x < 0 and x != int(x) for x in nums):
-            return K_HEXNEG
-        if any(cv == "o" and "#" in f for f, _w, _p, cv in codes) and any(0 < abs(x) < 1 for x in nums):
-            return K_OCTFRAC
     return None
 
 
@@ -597,7 +545,7 @@ def canon_model(t):
 # which harness error kinds each model error class may surface as (coarse)
 ERR_KINDS = {
     "truncated": {"Format"}, "unrecognized": {"Format"}, "not-enough": {"Format"}, "star-with-object": {"Format"},
-    "keys-required": {"Format"}, "no-field": {"Format"}, "too-many": {"RuntimeError"},
+    "keys-required": {"Format"}, "no-field": {"Format"}, "too-many": {"RuntimeError"}, "too-large": {"Format"},
     "type": {"TypeError", "RuntimeError", "TypeMismatch"},
     "char": {"RuntimeError", "InvalidUnicodeCodepointGot", "TypeError", "TypeMismatch"},
 }
@@ -692,15 +640,15 @@ def correspond(run, binary, cases, label=""):
             run.obligation("model.eval", False, str(r[1])[:300])
             continue
         if kind == "parse":
-            ic, sc, lm = int(r[0]), int(r[1]), r[2]
+            ic, sc = int(r[0]), int(r[1])
             for i in idx:
-                model[i] = ("parse", ic, sc, bool(lm))
+                model[i] = ("parse", ic, sc)
         else:
             for i, t in zip(idx, r):
-                cls_t, pts_t, spec_l, lm = t  # Coq prints (((a, b), c), d) as (a, b, c, d)
+                cls_t, pts_t, spec_l = t  # Coq prints ((a, b), c) as (a, b, c)
                 impl = canon_model((cls_t, pts_t))
                 spec = canon_model(spec_l[0]) if spec_l else impl
-                model[i] = ("run", impl, spec, bool(lm))
+                model[i] = ("run", impl, spec)
     run.log(f"{label}model evaluated ({len(exprs)} coqc expressions)")
     outs = run_code(run, binary, cases, model)
     run.log(f"{label}harness done")
@@ -716,7 +664,7 @@ def correspond(run, binary, cases, label=""):
         run.note_case(js, not trivial)
         info = {"jsonnet": js, "fmt": c.fmt, "kind": c.kind}
         if m[0] == "parse":
-            _, ic, sc, lm = m
+            _, ic, sc = m
             impl_out = ("panic", "") if ic == 10 else (("err", ERR_NAMES[ic]) if ic else ("ok", None))
             spec_out = ("err", ERR_NAMES[sc]) if sc else ("ok", None)
             code_cmp = code_out if code_out[0] != "ok" else ("ok", None)
@@ -725,7 +673,7 @@ def correspond(run, binary, cases, label=""):
             ok_spec = same(code_cmp, spec_out) if sc else code_out[0] in ("ok", "err")
             ok_impl = same(code_cmp, impl_out) if ic else True
         else:
-            _, impl_out, spec_out, lm = m
+            _, impl_out, spec_out = m
             if "fuel" in (impl_out[0], spec_out[0]):
                 run.count("skipped_out_of_fuel")
                 continue
@@ -769,7 +717,7 @@ def correspond(run, binary, cases, label=""):
         if not ok_spec:
             f = {"case": info, "summary": f"C12 {js[:150]}: expected {spec_out}, code gave {code_out}"[:300],
                  "expected": list(spec_out), "got": list(code_out), "impl_model": list(impl_out)}
-            kid = classify_known(c, code_out, spec_out, impl_out, lm)
+            kid = classify_known(c, code_out, spec_out, impl_out)
             if kid:
                 f["known"] = kid
                 f["summary"] = f"{js[:120]} -> {code_out[1][:60]!r} (spec: {str(spec_out[1])[:60]!r})"
@@ -801,10 +749,10 @@ def generate(run, thorough):
     codes = product_codes()
     if not thorough:
         rng.shuffle(codes)
-        keep = codes[:len(codes) // 4]
-        # every conversion letter x every single flag x every width/precision option stays covered
-        base = [(f, w, p, cv) for cv in CONVS for f in ("", "#", "0", "-", " ", "+", "#0", "-0", "+ ")
-                for (w, p) in ((None, None), (5, None), (None, 0), (5, 1), (1, 3), (0, None), ("*", "*"))]
+        keep = codes[:len(codes) // 12]      # quick budget: ~25 000 cases (thorough: the whole product)
+        # every conversion letter x every single flag x the main width/precision options stays covered
+        base = [(f, w, p, cv) for cv in CONVS for f in ("", "#", "0", "-", " ", "+", "#0")
+                for (w, p) in ((None, None), (5, None), (None, 0), (5, 1), ("*", "*"))]
         seen = set(keep)
         keep += [c for c in base if c not in seen]
         codes = keep
@@ -817,7 +765,7 @@ def generate(run, thorough):
         cases += product_cases(rng, thin, ARGS_EXTRA)
     cases += malformed_cases(rng)
     cases += object_cases(rng)
-    cases += multi_cases(rng, 6000 if thorough else 600)
+    cases += multi_cases(rng, 6000 if thorough else 400)
     return cases
 
 
@@ -873,7 +821,7 @@ def replay(run, data):
 
 
 RULE = ("cases = (format string, right-hand value) evaluated as `fmt % v` / std.format / std.mod: corpus + a seeded "
-        "quarter (thorough: all) of the 12000-code product flag-subsets x width{none,0,1,5,*} x precision{none,.0,.1,.3,.*} "
+        "twelfth plus a fixed 525-code grid (thorough: all) of the 12000-code product flag-subsets x width{none,0,1,5,*} x precision{none,.0,.1,.3,.*} "
         "x 15 letters, each on 22 arguments (integers, fractions, negatives, 0, 2^53, 1e30, 1e-5, strings incl. non-ASCII "
         "and empty, array, object, null, true); every prefix of 10 full codes; unknown letters; u16-overflowing widths; "
         "repeated length modifiers; object mode incl. dotted / missing / empty keys; random 1-3 code strings with "
